@@ -241,6 +241,12 @@ func (c *FContextImpl) ResponseHeaders() map[string]string {
 // SetTimeout sets the request timeout. Default is 5 seconds. Returns the same
 // FContext to allow for chaining calls.
 func (c *FContextImpl) SetTimeout(timeout time.Duration) FContext {
+	// The timeout travels as whole milliseconds. Round a positive
+	// sub-millisecond timeout up rather than down to "0", which means "no
+	// timeout" to ToContext and made such a call wait forever.
+	if timeout > 0 && timeout < time.Millisecond {
+		timeout = time.Millisecond
+	}
 	c.mu.Lock()
 	c.requestHeaders[timeoutHeader] = strconv.FormatInt(int64(timeout/time.Millisecond), 10)
 	c.mu.Unlock()
